@@ -7,7 +7,6 @@ import (
 	"errors"
 	"fmt"
 	"io/fs"
-	"io/ioutil"
 	"os"
 	"path/filepath"
 	"regexp"
@@ -210,7 +209,7 @@ func (db *DB) saveSchema(o Object, s *Schema, override bool) (err error) {
 	}
 
 	if override || !isFileAndExist(path) {
-		if err = ioutil.WriteFile(path, data, DefaultPermissions); err != nil {
+		if err = writeReader(path, bytes.NewBuffer(data), DefaultPermissions, false); err != nil {
 			return
 		}
 	}
